@@ -176,11 +176,11 @@ PROPS['C01'] = {
         'thorough': engine_runs('C01', 20000, [['--pure']] * 8 + [['--pure', '--print', '2']] * 2 + [[]] * 4, what='answers'),
     },
     'rule': E_RULE, 'design_ref': '5.1',
-    'assumptions': ["proved: (1) REFINEMENT on the cut-free, negation-free fragment (C01_pure): for every knowledge base whose bodies use calls, built-ins other than `!`, "
-                    "conjunction and disjunction, every query, fuel and number of requests, the answers (and the text written so far) of the successive requests are exactly "
+    'assumptions': ["proved: (1) REFINEMENT on the cut-free fragment (C01_pure): for every knowledge base whose bodies use calls, built-ins other than `!`, "
+                    "conjunction, disjunction and not(...), every query, fuel and number of requests, the answers (and the text written so far) of the successive requests are exactly "
                     "those of the reference machine Spec/PureMachine.lean started on the query - same answers, order, multiplicity, none for ever once it is exhausted; "
                     "(2) SOUNDNESS for all programs (every answer is SLD-derivable, Spec/SLD.lean), whatever cuts / negations ran; (3) no leakage between alternatives, the "
-                    "answer formatting. PARTIAL: the refinement for programs with `!`, not, time is not proved (machine comparison on every run); uniqueness of the "
+                    "answer formatting. PARTIAL: the refinement for programs with `!` or time(...) is not proved (machine comparison on every run); uniqueness of the "
                     "machine's run (fuel-monotonicity of the unification model) is not proved",
                     ENGINE_ASSUME],
 }
@@ -203,7 +203,8 @@ PROPS['C02'] = {
 PROPS['C03'] = {
     'exhaustive_in': {'quick': True, 'thorough': True},
     'module': 'SuironVerif.Props.C03',
-    'theorems': ['Suiron.C03.not_once', 'Suiron.C03.not_hides_bindings', 'Suiron.C03.not_iff', 'Suiron.C03.not_then_exhausted'],
+    'theorems': ['Suiron.C03.not_once', 'Suiron.C03.not_hides_bindings', 'Suiron.C03.not_iff', 'Suiron.C03.not_then_exhausted',
+                 'Suiron.C03.inner_search_is_reference', 'Suiron.C03.C03_reference'],
     'oracles': ['C03'],
     'suites': {
         'quick': engine_runs('C03', 1500, [['--not', '8', '--cut', '0'], ['--not', '6', '--cut', '2'], ['--not', '8', '--print', '3', '--cut', '0'], ['--not', '8', '--cut', '4', '--cut-in-not']], what='both'),
@@ -212,8 +213,9 @@ PROPS['C03'] = {
     'rule': E_RULE + " Runs here wrap calls, conjunctions, disjunctions, unifications and comparisons in not(...); the `--cut-in-not` run also puts `!` inside the "
             "negated goal (for those programs only implementation and engine model are compared: the reference machine does not define a cut under not).",
     'design_ref': '5.3',
-    'assumptions': ["`G has no answer` is read on the engine model as: G's node, asked once, reports none; the equivalence with the reference search is "
-                    "decided by the machine comparison", ENGINE_ASSUME],
+    'assumptions': ["`G has no answer` is proved against the reference machine (Spec/PureMachine.lean) for every cut-free G over a cut-free knowledge base "
+                    "(C03_reference); for a G that contains `!` or time(...) it is read on the engine model (G's node, asked once, reports none) and the "
+                    "agreement with the reference search is decided by the machine comparison", ENGINE_ASSUME],
 }
 PROPS['C04'] = {
     'exhaustive_in': {'quick': True, 'thorough': True},
@@ -583,22 +585,24 @@ LEVEL_TEXT = {
     'C17': 'Proved in Lean: count = number of visited cells (= length for literal lists); include/exclude keep, in order, the elements whose test unification '
            'under the unchanged set succeeds / fails and bind nothing; functor matches exactly or by prefix; join follows the spacing rule on the values of '
            'its terms. Tied to the code by the builtins correspondence suite and its oracles.',
-    'C01': 'Proved in Lean for all knowledge bases, queries, fuel values and numbers of requests: (1) on the cut-free, negation-free fragment the engine model REFINES the '
-           'reference machine (depth-first, left-to-right, clause-order resolution as a stack of goals/try frames): successive requests return exactly the machine\'s '
+    'C01': 'Proved in Lean for all knowledge bases, queries, fuel values and numbers of requests: (1) on the cut-free fragment (calls, built-ins, `,`, `;`, not) the engine model REFINES the '
+           'reference machine (depth-first, left-to-right, clause-order resolution as a stack of goals/try/negation frames): successive requests return exactly the machine\'s '
            'answers, in order, with multiplicity, and none for ever once it is exhausted, with the same output at every point; (2) for ALL programs every answer ever '
            'returned is an SLD-derivable answer (soundness); (3) node substitution sets are immutable (no leakage between alternatives); the answer formatting. PARTIAL: '
-           'the refinement for programs with `!`, not, time - decided by running implementation, engine model and the marker machine (executable Lean) on the same '
+           'the refinement for programs with `!` or time - decided by running implementation, engine model and the marker machine (executable Lean) on the same '
            'generated programs on every check, request by request (substitution sets with ids, counters, stdout) resp. answer by answer.',
     'C02': 'Proved in Lean on the engine model for all nodes, knowledge bases, states and fuel: `!` marks its node and raises the cut flag; every node that '
            'passes the flag on is marked when it returns; a marked node answers none and changes nothing (no retry to the left of the cut, no answer '
            'beyond the one being derived); a call whose body cut and then failed tries no later clause; a call never reports a cut to its caller '
            '(callers and siblings unaffected). Model tied to the code, and engine compared with the reference machine, on every run.',
-    'C03': 'Proved in Lean on the engine model: the first request on a not-node asks G once and returns its own, unchanged substitution set iff G has no '
-           'answer, none otherwise; afterwards the node is exhausted. Agreement with the reference search is decided by the machine comparison.',
-    'C04': 'Proved in Lean: on the cut-free, negation-free fragment the text written up to every request equals the text the reference machine has written at that point of '
+    'C03': 'Proved in Lean: the first request on a not-node asks G once and returns its own, unchanged substitution set iff G has no '
+           'answer, none otherwise; afterwards the node is exhausted; for every cut-free G and knowledge base `G has no answer` is the reference search for G running '
+           'to the empty stack, and `none` is that search showing an answer (C03_reference; negation is part of the refinement theorem of C01). G containing `!` / time: '
+           'agreement with the reference search is decided by the machine comparison.',
+    'C04': 'Proved in Lean: on the cut-free fragment (negation included) the text written up to every request equals the text the reference machine has written at that point of '
            'its depth-first run (output component of the refinement theorem: once per execution, in execution order, retries included); a built-in node runs its effect '
            'on the first request only and appends exactly its text; print interleaves its arguments with the pieces of the format (or concatenates without markers) and '
-           'shows bound values. With `!`, not, time: order and multiplicity are decided by comparing captured stdout per request with the reference machine.',
+           'shows bound values. With `!` or time: order and multiplicity are decided by comparing captured stdout per request with the reference machine.',
     'C05': 'Proved in Lean for all nodes, knowledge bases, global states and fuel values: a request that answers none leaves an exhausted node, and an '
            'exhausted node answers none again with the global state (output, counter, ticks) unchanged, for any number of further requests.',
     'C06': 'Proved in Lean for all well-formed function-free operands, substitution sets, substitutions and fuel: a successful unification keeps every earlier binding verbatim '
